@@ -37,6 +37,20 @@ def gen_time_lists(rng, spec, tier):
     return lists
 
 
+def gen_grids(rng, spec):
+    """evenly spaced grids (what plot_cdf / plot_accumulation pass): dyadic steps, so that epoch boundaries fall
+    exactly on grid points and consecutive steps are bit-identical across a boundary"""
+    out = []
+    for step in (0.125, 0.5):
+        m = rng.randrange(6, 14) if step < 0.5 else rng.randrange(4, 10)
+        start = rng.choice([0.0, step])
+        g = [start + i * step for i in range(m)]
+        if rng.random() < 0.3:
+            g = g[::-1]
+        out.append(g)
+    return out
+
+
 def flat(v):
     return v if not isinstance(v, list) or not v or not isinstance(v[0], list) else [x for row in v for x in row]
 
@@ -54,7 +68,7 @@ def run(res, replay=None):
     rng = random.Random(res.seed)
     res.rule = ('vectorised stream: for random configurations (1-3 demes, 1-3 epochs, three models) every permutation '
                 'of 3 (thorough: 4) distinct times drawn from epoch boundaries/0/interior points plus random lists with '
-                'repeats (length<=12), as list/tuple/array, through cdf, pdf, accumulate(k=1,2), total_branch_length, '
+                'repeats (length<=12) plus evenly spaced dyadic grids (epoch boundaries on grid points), as list/tuple/array, through cdf, pdf, accumulate(k=1,2), total_branch_length, '
                 'sfs.accumulate and get_epochs; non-trivial = list that is not already sorted; distinct = distinct '
                 '(configuration, entry point, time list, container)')
     res.assumptions = ['pointwise and vectorised float paths differ only in rounding (compared at 1e-10 relative)']
@@ -64,11 +78,15 @@ def run(res, replay=None):
     else:
         nspec = 4 if res.tier == 'quick' else 16
         for s in range(nspec):
-            spec = gen.rand_spec(rng, n_total=rng.choice([2, 3, 4]), end_time='never')
+            spec = gen.rand_spec(rng, n_total=rng.choice([2, 3, 4]), end_time='never',
+                                 n_epochs=(rng.choice([2, 3]) if s % 2 == 0 else None))
             lists = gen_time_lists(rng, spec, res.tier)
             for ts in lists:
                 ep = rng.choice(ENTRIES)
                 cases.append({'spec': spec, 'ts': ts, 'container': rng.choice(['list', 'tuple', 'array']), 'entry': ep})
+            for gi, ts in enumerate(gen_grids(rng, spec)):
+                cases.append({'spec': spec, 'ts': ts, 'container': 'array', 'entry': 'cdf'})
+                cases.append({'spec': spec, 'ts': ts, 'container': 'array', 'entry': rng.choice(['pdf', 'acc1', 'sfs1', 'acc2', 'tbl1'])})
     # implementation
     chunks = [cases[i::C.NCPU] for i in range(C.NCPU)]
     chunks = [c for c in chunks if c]
